@@ -228,6 +228,15 @@ REGEN_CXA.update({  # T2
     "TwoCol": ["editorInsertTwoColumnsOpts_cxA", "editorInsertTwoColumns_cxA"],
     "DefTable": ["editorInsertDefinitionsTableOpts_cxA", "editorInsertDefinitionsTable_cxA"]})
 
+# T1: Editor.AlignOpts / Align / JustifyOpts / Justify, tb.New, tb.Block.Apply
+REGEN["Block"] += ["blockNew", "blockApply"]
+REGEN.update({"AlignOpts": ["editorAlignOpts", "editorAlign"], "JustifyOpts": ["editorJustifyOpts", "editorJustify"]})
+for _pid, _groups in (("C13", ["AlignOpts"]), ("C12", ["JustifyOpts"]), ("C07", ["AlignOpts", "JustifyOpts"]),
+                      ("C11", ["AlignOpts", "JustifyOpts"]), ("C17", ["AlignOpts", "JustifyOpts"])):
+    REGEN_OF.setdefault(_pid, []).extend(_groups)
+REGEN_CXA.update({"AlignOpts": ["editorAlignOpts_cxA", "editorAlign_cxA"],
+                  "JustifyOpts": ["editorJustifyOpts_cxA", "editorJustify_cxA"]})
+
 
 def regen_theorems(pid):
     return (["RosedVerif.GenCodeEq.%s_regenerated" % f for g in REGEN_OF.get(pid, []) for f in REGEN[g]] +
